@@ -5,6 +5,7 @@ go 1.21
 require (
 	github.com/goghcrow/go-co v0.0.0
 	github.com/goghcrow/go-loader v0.0.4-0.20240221113906-cab11067771f
+	golang.org/x/tools v0.18.0
 )
 
 require (
@@ -12,7 +13,6 @@ require (
 	github.com/goghcrow/go-imports v0.0.3-0.20240221114019-5a6ed41cc3b5 // indirect
 	github.com/goghcrow/go-matcher v0.0.5-0.20240221112341-6675288f4167 // indirect
 	golang.org/x/mod v0.15.0 // indirect
-	golang.org/x/tools v0.18.0 // indirect
 )
 
 replace github.com/goghcrow/go-co => /repo
